@@ -54,3 +54,38 @@ Theorem C13_late_joiner_gets_all : forall w c ann, w_type w = SUB ->
     c_wire cn = concat (map (fun t => encode_frames [1 :: t]) (w_subs w)).
 Proof. exact attach_self. Qed.
 Print Assumptions C13_late_joiner_gets_all.
+
+(** * subscribe / unsubscribe over connections that answer each write from a script (Model/DirSend.v) *)
+From ZV Require Import Model.TrySend Model.RrSend Model.DirSend Proofs.RrSendProofs Proofs.DirSendProofs.
+
+(** when no connection keeps refusing data, every peer of the table is sent the update exactly once, each according to
+    its own connection alone: a failure on one peer's connection does not prevent the other peers from being updated *)
+Theorem C13_faulty_every_peer_once : forall ps enc, (forall p, In p ps -> fst (sink_send (p_sink p) enc) <> FlStall) ->
+  bcast ps enc =
+  (map (fun p => (p_id p, fst (sink_send (p_sink p) enc))) ps,
+   map (fun p => {| p_id := p_id p; p_sink := snd (sink_send (p_sink p) enc) |}) ps).
+Proof. exact bcast_no_stall. Qed.
+Print Assumptions C13_faulty_every_peer_once.
+
+(** a peer whose connection accepts every write has been told exactly the changes the socket's set went through, in
+    order, whatever the connections of the other peers do *)
+Theorem C13_faulty_healthy_told_all : forall ops st rs st' k p,
+  srun st ops = (rs, st') ->
+  pget k (s_peers st) = Some p -> k_tr (p_sink p) = accepting_tr -> k_buf (p_sink p) = [] ->
+  (forall o, In o ops -> concerns_peer k o = false) ->
+  (forall r, In r rs -> match r with BStall _ => False | _ => True end) ->
+  (forall t : bytes, In (SSub t) ops \/ In (SUnsub t) ops -> lenN t < 2 ^ 62) ->
+  swire k st' = swire k st ++ concat (map encode_frames (updates (s_subs st) ops)).
+Proof. exact sub_healthy_told_all. Qed.
+Print Assumptions C13_faulty_healthy_told_all.
+
+Theorem C13_faulty_joiner_gets_set : forall st k,
+  pget k (s_peers st) = None ->
+  let st' := snd (sstep st (SAttach k)) in
+  swire k st' = concat (map (fun t => encode_frames (DirSend.sub_msg Gen.sub_op_sub t)) (s_subs st)) /\ s_subs st' = s_subs st.
+Proof. exact sub_joiner_gets_set. Qed.
+Print Assumptions C13_faulty_joiner_gets_set.
+
+Theorem C13_faulty_repeat_silent : forall st t, has t (s_subs st) = true -> sstep st (SSub t) = (Some BOk, st).
+Proof. exact sub_repeat_silent. Qed.
+Print Assumptions C13_faulty_repeat_silent.
